@@ -149,13 +149,13 @@ check('C17', 'http',
       'chain (TLC: Stable, AtMostOneAuth, CacheOwn); TLC-generated histories replayed on real objects, a probe request '
       'through every live connection after every action',
       'All histories of 3 actions (NewConn, Wrap with one adapter or a list, AuthWrap basic/token/client, NewCaller, '
-      'CloneCaller none/single/list, GetConn per component, Request with 5 methods x 11 body kinds) exhaustively and '
+      'CloneCaller none/single/list, GetConn per component, AddAdapter, Request with 5 methods x 11 body kinds) exhaustively and '
       'TLC simulations of 7 actions; after every action every live connection is probed and the captured urllib Request '
       'compared with the spec: address, path segments (inner prefixes outermost), url-encoded params, exactly one '
       'decodable Authorization header, adapter and caller headers, response processors in reverse order, body '
       'encoding, caller objects unchanged.',
-      'Trusted: TLC; opener replaced by a recorder. One auth layer per chain; paths start with "/"; add_adapter and '
-      'tuples of adapters not exercised.',
+      'Trusted: TLC; opener replaced by a recorder. One auth layer per chain; paths start with "/"; tuples of '
+      'adapters not exercised.',
       'DESIGN.md section 4, C17')
 
 ENGINES['xls'] = ('specs/xls', ['C18'], 'XlsRead.tla (sheet builder, end rules, ladder fill-down with origins, TLC: '
